@@ -17,10 +17,13 @@ import (
 	"bytes"
 	"encoding/binary"
 	"encoding/hex"
+	"encoding/json"
 	"fmt"
+	"io/ioutil"
 	"math/big"
 	"math/rand"
 	"os"
+	"path/filepath"
 	"regexp"
 	"sort"
 	"strconv"
@@ -321,6 +324,49 @@ func replay(path string) {
 
 // ------------------------------------------------------------------------------------------- record
 
+// seedCache remembers found seeds between runs (build/tokenid-seeds.json next to the binary); every cached
+// seed is re-verified with the real hasher before use, so the cache only saves the ~2^24 hashes of a search
+type seedCache struct {
+	path string
+	m    map[string]string
+}
+
+func loadSeedCache() *seedCache {
+	c := &seedCache{m: map[string]string{}}
+	exe, err := os.Executable()
+	if err != nil {
+		return c
+	}
+	c.path = filepath.Join(filepath.Dir(exe), "tokenid-seeds.json")
+	if b, err := ioutil.ReadFile(c.path); err == nil {
+		_ = json.Unmarshal(b, &c.m)
+	}
+	return c
+}
+
+func (c *seedCache) find(name string, h hashing.Hasher, caller []byte, target int, start uint64) ([]byte, uint64) {
+	key := fmt.Sprintf("%s|%x|%06x", name, caller, target)
+	if s, ok := c.m[key]; ok {
+		if seed, err := hex.DecodeString(s); err == nil && len(seed) == 32 {
+			d := h.Compute(string(append(append([]byte{}, caller...), seed...)))
+			if int(d[0])<<16|int(d[1])<<8|int(d[2]) == target {
+				return seed, 1
+			}
+		}
+	}
+	seed, tried := search(h, caller, target, start)
+	c.m[key] = hex.EncodeToString(seed)
+	if c.path != "" {
+		if b, err := json.Marshal(c.m); err == nil {
+			tmp := fmt.Sprintf("%s.%d", c.path, os.Getpid())
+			if ioutil.WriteFile(tmp, b, 0644) == nil {
+				_ = os.Rename(tmp, c.path)
+			}
+		}
+	}
+	return seed, tried
+}
+
 // search finds a 32-byte random seed such that the first 3 bytes of hasher(caller ++ seed) are `target`
 func search(h hashing.Hasher, caller []byte, target int, start uint64) ([]byte, uint64) {
 	const workers = 4
@@ -400,13 +446,14 @@ func record(seed int64, chains int, out string) {
 	}
 	hs := []hcase{{"blake2b", blake2b.NewBlake2b()}, {"keccak", keccak.NewKeccak()}}
 	targets := []int{0xffffff, 0xfffffe, rng.Intn(0xffffff)}
+	cache := loadSeedCache()
 	for c := 0; c < chains; c++ {
 		hc := hs[c%len(hs)]
 		target := targets[(c/len(hs))%len(targets)]
 		w := newWorld(hc.h)
 		caller := callerOf(1000*int(seed) + c)
 		t := tickers[c%len(tickers)]
-		sd, tried := search(hc.h, caller, target, uint64(seed)<<40+uint64(c)<<32)
+		sd, tried := cache.find(hc.name, hc.h, caller, target, uint64(seed)<<40+uint64(c)<<32)
 		hashes += tried
 		w.seed = sd
 		traces++
